@@ -32,6 +32,7 @@ func (handlerSelf *HandlerDef) Post(fn func()) {
 	if handlerSelf.isClosed {
 		return
 	}
+	verifAt("handler.Post.checked")
 
 	handlerSelf.ch <- fn
 }
@@ -39,12 +40,14 @@ func (handlerSelf *HandlerDef) Post(fn func()) {
 // Close Close the Handler
 func (handlerSelf *HandlerDef) Close() {
 	handlerSelf.isClosed = true
+	verifAt("handler.Close.flagged")
 
 	close(handlerSelf.ch)
 }
 
 func (handlerSelf *HandlerDef) run() {
 	for fn := range handlerSelf.ch {
+		verifAt("handler.run.next")
 		fn()
 	}
 }
